@@ -97,46 +97,53 @@ def panicResp : Response := ⟨500, []⟩
 /-- `c.JSON(http.StatusOK, v)` -/
 def ok200 : Response := ⟨200, [.value]⟩
 
-/-! ### switches: one per defect of the unchanged code (docs/findings/C16.md)
+/-! ### switches: one per defect found in the code as it was first checked (docs/findings/C16.md)
 
-`codeToday` says what /repo does now. After a `fix:` commit flip the corresponding field to `true`
-(and adjust the code / status of the fixed branch below if the patch chose another one). -/
+`codeToday` says what /repo does now. Switches 1–6 were flipped together with the `fix:` commits named below;
+7–9 (gin defaults / the empty /status answer) stay known findings. A switch set to `false` reproduces the old
+behaviour, so the theorems — proved for EVERY setting — also say exactly what each repair bought. -/
 
 structure Fixes where
-  /-- GET /chain/header/byHeight: `height` missing / not an int → today the *strconv.NumError goes to
-      ErrorResponse → 500 `error-unknown`; fixed: validated first → 400 structured -/
+  /-- GET /chain/header/byHeight: `height` missing / not an int. Before 8c36075 the *strconv.NumError went to
+      ErrorResponse unwrapped → 500 `error-unknown`; now wrapped in ErrInvalidHeight → 400 structured -/
   byHeightValidatesHeight : Bool
-  /-- POST /chain/header/commonAncestor with `[]` / `null`: today `headers[0]` on an empty slice panics → 500, empty body -/
+  /-- POST /chain/header/commonAncestor with `[]` / `null`. Before 397583f `headers[0]` on an empty slice panicked →
+      500, empty body; now ErrCommonAncestorEmptyList → 400 -/
   commonAncestorRejectsEmpty : Bool
-  /-- POST /chain/header/commonAncestor when the service returns `nil, nil` (a requested header has height 0, or the
-      walk runs out): today `newBlockHeaderResponse(nil)` dereferences nil → 500, empty body -/
+  /-- POST /chain/header/commonAncestor when there is no common ancestor (a requested header has height 0, or the
+      walk runs out). Before 15c8125 the service returned `nil, nil` and `newBlockHeaderResponse(nil)` dereferenced
+      nil → 500, empty body; now ErrAncestorNotFound → 400 -/
   commonAncestorHandlesNil : Bool
-  /-- POST /webhook with an unbindable body: today ErrBindBody is written and the handler CONTINUES (second document:
-      ErrURLBodyRequired, or — when the decoder had already filled `url` — the webhook is created and written) -/
+  /-- POST /webhook with an unbindable body. Before 64394b6 ErrBindBody was written and the handler CONTINUED (second
+      document: ErrURLBodyRequired, or — when the decoder had already filled `url` — the webhook was created and written) -/
   webhookReturnsAfterBindError : Bool
-  /-- POST /chain/merkleroot/verify bind error: today `c.JSON(400, err.Error())` — a bare JSON string -/
+  /-- POST /chain/merkleroot/verify bind error. Before 0f9264d `c.JSON(400, err.Error())` — a bare JSON string -/
   verifyBindErrorStructured : Bool
-  /-- GET /access with authentication disabled: today `c.Status(400)` and nothing else -/
+  /-- GET /access with authentication disabled. Before 689736e `c.Status(400)` and nothing else; now ErrTokenNotFound → 404 -/
   accessGetNoAuthStructured : Bool
-  /-- GET /status: today `c.Status(200)` and nothing else (no JSON document) -/
+  /-- GET /status: today `c.Status(200)` and nothing else (no JSON document) — known finding -/
   statusWritesJson : Bool
-  /-- unknown path / method: today gin's default NoRoute — 404 `text/plain` "404 page not found" -/
+  /-- unknown path / method: today gin's default NoRoute — 404 `text/plain` "404 page not found" — known finding -/
   noRouteStructured : Bool
-  /-- a registered path with / without its trailing slash: today gin's RedirectTrailingSlash — 301 with an HTML body (GET) / 307 with an empty body (other methods) -/
+  /-- a registered path with / without its trailing slash: today gin's RedirectTrailingSlash — 301 with an HTML body (GET) /
+      307 with an empty body (other methods) — known finding -/
   trailingSlashRedirectOff : Bool
 deriving DecidableEq, Repr
 
 /-- THE CODE TODAY (re-verified on the real engine by harness/cmd/drive/c16.go on every run) -/
 def codeToday : Fixes :=
-  { byHeightValidatesHeight := false        -- code today
-    commonAncestorRejectsEmpty := false     -- code today
-    commonAncestorHandlesNil := false       -- code today
-    webhookReturnsAfterBindError := false   -- code today
-    verifyBindErrorStructured := false      -- code today
-    accessGetNoAuthStructured := false      -- code today
-    statusWritesJson := false               -- code today
-    noRouteStructured := false              -- code today
-    trailingSlashRedirectOff := false }     -- code today
+  { byHeightValidatesHeight := true         -- fix: 8c36075
+    commonAncestorRejectsEmpty := true      -- fix: 397583f
+    commonAncestorHandlesNil := true        -- fix: 15c8125
+    webhookReturnsAfterBindError := true    -- fix: 64394b6
+    verifyBindErrorStructured := true       -- fix: 0f9264d
+    accessGetNoAuthStructured := true       -- fix: 689736e
+    statusWritesJson := false               -- code today (known finding)
+    noRouteStructured := false              -- code today (known finding)
+    trailingSlashRedirectOff := false }     -- code today (known finding)
+
+/-- the code as it was first checked (every switch off): what the `_iff` theorems say about it is the record of the defects -/
+def codeBefore : Fixes := ⟨false, false, false, false, false, false, false, false, false⟩
 
 def allFixed : Fixes := ⟨true, true, true, true, true, true, true, true, true⟩
 
@@ -242,12 +249,12 @@ def headerByHashH (s : Store String) (hash : String) : Response :=
   | none => errResp Gen.errHeaderNotFound
 
 /-- getHeaderByHeight. `c.GetQuery` gives "" for an absent parameter. A bad `count` silently becomes 1;
-    a bad `height` is handed to ErrorResponse as a *strconv.NumError. With a valid height the range query
+    a bad `height` is answered with ErrInvalidHeight (switch off: the bare *strconv.NumError → 500). With a valid height the range query
     answers a (possibly empty) list whatever the numbers are (content: C04). -/
 def byHeightH (fx : Fixes) (height _count : Option String) : Response :=
   match atoi (height.getD "") with
   | none =>
-    if fx.byHeightValidatesHeight then fixedErr 400 "ErrInvalidHeight" "height must be an integer"   -- SWITCH 1
+    if fx.byHeightValidatesHeight then errResp Gen.errInvalidHeight                                  -- SWITCH 1
     else unknownErr
   | some _ => ok200
 
@@ -288,15 +295,15 @@ def commonAncestorH (fx : Fixes) (s : Store String) (body : Bind (List String)) 
   | .bindErr => send afterBindAbort Gen.errBindBody.status (errDoc Gen.errBindBody)
   | .parsed hashes =>
     if fx.commonAncestorRejectsEmpty && hashes.isEmpty then
-      fixedErr 400 "ErrCommonAncestorEmptyList" "at least one header hash is required"               -- SWITCH 2
+      errResp Gen.errCommonAncestorEmptyList                                                         -- SWITCH 2
     else
       match caKind s hashes with
       | .found => ok200
       | .err => errResp (caErr s hashes)
-      | .panic => panicResp                       -- headers[0] on an empty slice
+      | .panic => panicResp                       -- (switch 2 off) headers[0] on an empty slice
       | .nil =>
         if fx.commonAncestorHandlesNil then errResp Gen.errAncestorNotFound                            -- SWITCH 3
-        else panicResp                            -- newBlockHeaderResponse(nil)
+        else panicResp                            -- (switch 3 off) newBlockHeaderResponse(nil)
 
 /-- getTipLongestChain: `GetTip()` swallows the error and returns nil; newTipStateResponse(nil) would panic -/
 def tipLongestH (s : Store String) : Response :=
@@ -322,7 +329,7 @@ def verifyH (fx : Fixes) (s : Store String) (excess : Int) (body : Bind (List (S
   match body with
   | .bindErr =>
     if fx.verifyBindErrorStructured then send afterBindAbort Gen.errBindBody.status (errDoc Gen.errBindBody)   -- SWITCH 5
-    else send afterBindAbort 400 .bareString      -- c.JSON(http.StatusBadRequest, err.Error())
+    else send afterBindAbort 400 .bareString      -- (switch 5 off) c.JSON(http.StatusBadRequest, err.Error())
   | .parsed [] => errResp Gen.errVerifyMerklerootsBadBody
   | .parsed items =>
     match verify s excess items with
@@ -331,7 +338,7 @@ def verifyH (fx : Fixes) (s : Store String) (excess : Int) (body : Bind (List (S
 
 /-- registerWebhook -/
 def webhookRegisterH (fx : Fixes) (hooks : List Hook) (bindErr : Bool) (url : String) : Response × List Hook :=
-  -- `if err != nil { ErrorResponse(ErrBindBody) }` — and no `return`
+  -- `if err != nil { ErrorResponse(ErrBindBody); return }` — switch 4 off: without the `return`
   let w : Option Response :=
     if bindErr then some (send afterBindAbort Gen.errBindBody.status (errDoc Gen.errBindBody)) else none
   if bindErr && fx.webhookReturnsAfterBindError then
@@ -364,7 +371,7 @@ def accessGetH (fx : Fixes) (a : AuthIn) : Response :=
   match a with
   | .disabled =>
     if fx.accessGetNoAuthStructured then errResp Gen.errTokenNotFound                                  -- SWITCH 6
-    else ⟨400, []⟩                               -- c.Status(http.StatusBadRequest)
+    else ⟨400, []⟩                               -- (switch 6 off) c.Status(http.StatusBadRequest)
   | _ => ok200
 
 /-- createToken / revokeToken behind RequireAdmin. DeleteToken of an unknown token is not an error. -/
